@@ -81,6 +81,31 @@ def decode(M, w, nbits):
     return row, f, ops, h[1]
 
 
+def aborted_load_dests(M, row, ops):
+    """B1.9.8, effects of data-aborted instructions: "if the instruction loads more than one general-purpose register, UNKNOWN values are left in
+    destination registers other than the PC and the base register" - the reference's own sequential order (earlier registers of the list already loaded)
+    is one allowed outcome among others. A base register with write-back keeps its original value (Base Restored Abort Model); a base register that is
+    merely in the list of a load without write-back is treated like the other destinations."""
+    from vf.gen import MODES
+    if row is None or not isinstance(ops, dict):
+        return
+    name = row.name
+    keys = []
+    if name.startswith(('LDM', 'POP')) and isinstance(ops.get('registers'), int):
+        regs = ops['registers']
+        if bin(regs & 0xFFFF).count('1') < 2:
+            return
+        user = name.startswith('LDM_user')
+        keys = [M.rkey(i, MODES['usr']) if user else M.rkey(i) for i in range(15) if (regs >> i) & 1]
+    elif name.startswith(('LDRD', 'LDREXD')) and 't' in ops and 't2' in ops:
+        keys = [M.rkey(ops[k]) for k in ('t', 't2') if ops[k] < 15]
+    if not keys:
+        return
+    if ops.get('wback') and isinstance(ops.get('n'), int) and ops['n'] < 15 and M.rkey(ops['n']) in keys:
+        keys.remove(M.rkey(ops['n']))
+    M.unknown.update(keys)
+
+
 def step(M):
     """executes one instruction on M; returns (status, detail). status in ok | undef | abort | svc | smc | hyptrap |
     unpred | notimpl | skip"""
@@ -127,6 +152,7 @@ def step(M):
         M.take_undef()
         return 'undef', str(e)
     except Abort as ab:
+        aborted_load_dests(M, row, locals().get('ops'))
         try:
             M.report_abort(ab)
         except Skip as e:
